@@ -476,7 +476,68 @@ func coveringDesigns() []*dg.Design {
 		add(&dg.Design{Name: "cover_verb_files", Services: []*dg.Service{{Name: "vfiles", Methods: onfile,
 			Files: []dg.FileServer{{Path: "/g/file.json", File: "public/g.json"}, {Path: "/f/fixed/file.json", File: "public/f.json"}}}}})
 	}
+	// c10: openapi:* metadata at every level. Marked (openapi:generate=false): a whole service
+	// (on the service, on its HTTP block), a method, an HTTP endpoint, a file server. Not
+	// marked but carrying the key on attributes: the attribute used as the whole body
+	// (Body("attr")), a primitive payload, a user type payload, query/header/cookie/path
+	// parameters and body fields, on every verb that can be drawn; their operations must
+	// stay listed with all their parameters and their request body.
+	{
+		nogen := func(f *dg.Field) *dg.Field {
+			f.A.Meta = append(f.A.Meta, []string{"openapi:generate", "false"})
+			return f
+		}
+		flaggedPrim := func() *dg.Attr {
+			a := dg.A(dg.Prim("String"))
+			a.Meta = [][]string{{"openapi:generate", "false"}}
+			return &a
+		}
+		flaggedUser := func() *dg.Attr {
+			a := dg.A(dg.Ref("MItem"))
+			a.Meta = [][]string{{"swagger:generate", "false"}}
+			return &a
+		}
+		var ms []*dg.Method
+		ms = append(ms,
+			&dg.Method{Name: "kept", Payload: obj(rstr("id"), str("q")), HTTP: &dg.HTTPMap{Routes: []dg.Route{rt("GET", "/kept/{id}")}, Params: []dg.MapEntry{me("q", "")}}},
+			&dg.Method{Name: "gone1", Payload: obj(rstr("id")), HTTP: &dg.HTTPMap{Routes: []dg.Route{rt("POST", "/gone1/{id}")}}},
+			&dg.Method{Name: "gone2", HTTP: &dg.HTTPMap{Routes: []dg.Route{rt("GET", "/gone2"), rt("DELETE", "/gone2")}}},
+			&dg.Method{Name: "prim_flagged", Payload: flaggedPrim(), HTTP: &dg.HTTPMap{Routes: []dg.Route{rt("PUT", "/prim-flagged")}}},
+			&dg.Method{Name: "user_flagged", Payload: flaggedUser(), HTTP: &dg.HTTPMap{Routes: []dg.Route{rt("PATCH", "/user-flagged")}}},
+			&dg.Method{Name: "params_flagged", Payload: obj(nogen(rstr("p")), nogen(str("q")), nogen(rstr("h")), nogen(str("c")), nogen(rstr("b1")), str("b2")),
+				HTTP: &dg.HTTPMap{Routes: []dg.Route{rt("POST", "/params-flagged/{p}")}, Params: []dg.MapEntry{me("q", "")}, Headers: []dg.MapEntry{me("h", "X-H")}, Cookies: []dg.MapEntry{me("c", "ck")}}})
+		for _, v := range docVerbs {
+			ms = append(ms, &dg.Method{Name: "flagged_body_" + strings.ToLower(v), Payload: obj(rstr("id"), nogen(dg.Req("item", dg.Ref("MItem")))),
+				HTTP: &dg.HTTPMap{Routes: []dg.Route{rt(v, "/flagged-body/"+v+"/{id}")}, Body: &dg.BodySpec{Attr: "item"}}})
+		}
+		ms = append(ms, &dg.Method{Name: "flagged_body", Payload: obj(rstr("id"), nogen(dg.F("item", dg.Ref("MItem")))),
+			HTTP: &dg.HTTPMap{Routes: []dg.Route{rt("POST", "/flagged-body-opt/{id}"), rt("PUT", "/flagged-body-opt/{id}")}, Body: &dg.BodySpec{Attr: "item"}}})
+		add(&dg.Design{Name: "cover_meta", Types: []*dg.UserType{{Name: "MItem", Base: dg.Obj(rstr("name"), nogen(dg.F("secret", dg.Prim("Int"))))}},
+			Services: []*dg.Service{
+				{Name: "shown", Methods: ms, Files: []dg.FileServer{{Path: "/hidden.json", File: "public/hidden.json"}, {Path: "/shown.json", File: "public/shown.json"}}},
+				{Name: "hiddenA", BasePath: "/ha", Methods: []*dg.Method{{Name: "a", Payload: prim("String"), HTTP: &dg.HTTPMap{Routes: []dg.Route{rt("POST", "/a")}}}}, Files: []dg.FileServer{{Path: "/fa.json", File: "public/fa.json"}}},
+				{Name: "hiddenB", BasePath: "/hb", Methods: []*dg.Method{{Name: "b", HTTP: &dg.HTTPMap{Routes: []dg.Route{rt("GET", "/b")}}}}},
+			}})
+	}
 	return ds
+}
+
+// coveringMeta gives the metadata of the covering design that carries some (nil otherwise).
+func coveringMeta(d *dg.Design) *MetaSpec {
+	if d.Name != "cover_meta" {
+		return nil
+	}
+	ng := []string{"openapi:generate", "false"}
+	sg := []string{"swagger:generate", "false"}
+	return &MetaSpec{
+		API:     [][]string{{"openapi:tag:Top"}, {"openapi:tag:Top:desc", "top"}, {"openapi:extension:x-api", `{"a":[1,2]}`}},
+		Service: map[string][][]string{"hiddenA": {ng}, "shown": {{"openapi:tag:Svc"}, {"openapi:summary", "svc"}}},
+		HTTPSvc: map[string][][]string{"hiddenB": {sg}},
+		Method: map[string][][]string{"shown.gone1": {ng}, "shown.kept": {{"openapi:summary", "kept"}, {"openapi:deprecated", "true"}, {"openapi:generate", "true"}},
+			"shown.flagged_body": {{"openapi:operationId", "{service}-{method}(-{routeIndex})"}}},
+		HTTPEp: map[string][][]string{"shown.gone2": {sg}, "shown.prim_flagged": {{"openapi:extension:x-op", `{"n":1}`}}},
+		File:   map[string][][]string{"shown#0": {ng}, "shown#1": {{"openapi:summary", "a file"}, {"openapi:tag:Files"}}},
+	}
 }
 
 // witnessDesigns re-demonstrate the recorded findings (each must fail with exactly
